@@ -161,10 +161,11 @@ def displ_case(draw):
     kind = draw(st.sampled_from(["tree", "star", "chain", "cyclic"]))
     edges = draw(gen.graph_edges(n, kind))
     rng = np.random.default_rng(draw(gen.SEEDS))
-    pos = gen.walk_geometry(n, edges, rng, lo=0.1, hi=0.5)
+    scale = draw(st.sampled_from([1.0, 1.0, 1.0, 10.0, 1e-2, 1e-4, 1e-6]))       # the unit of length is the caller's choice
+    pos = gen.walk_geometry(n, edges, rng, lo=0.1, hi=0.5) * scale
     lengths = [float(np.linalg.norm(pos[a] - pos[b])) for a, b in edges]
     if draw(st.booleans()):
-        lengths = rng.uniform(0.05, 0.8, len(edges)).tolist()       # a bond table that disagrees with the current geometry
+        lengths = (rng.uniform(0.05, 0.8, len(edges)) * scale).tolist()       # a bond table that disagrees with the current geometry
     atom = draw(st.integers(0, n - 1))
     return {"n": n, "edges": edges, "pos": pos.tolist(), "lengths": lengths, "atom": atom,
             "sigma": draw(st.sampled_from([0.5, 0.1, 1.0, 2.5])), "seed": draw(gen.SEEDS)}
@@ -221,7 +222,9 @@ def check_displ(case):
     d2 = np.asarray(gaddlemaps.find_atom_random_displ(pos, tab, atom, sigma_scale=case["sigma"]), float)
     if not np.array_equal(d, d2):
         raise PropertyViolation("displ-deterministic", "same seed, different displacement")
-    return {"nontrivial": True, "classes": ["neighbours:%d" % min(len(nbrs), 3)]}
+    span = float(np.abs(pos).max()) if len(pos) else 1.0
+    return {"nontrivial": True, "classes": ["neighbours:%d" % min(len(nbrs), 3),
+                                            "scale:%s" % ("unit" if span > 0.05 else "small")]}
 
 
 SUBCHECKS = [
